@@ -427,6 +427,12 @@ func init() {
 		}
 		panic(pathAbort{"unsupported: symbolic ToLower"})
 	})
+	reg("strings.TrimSpace", func(ex *Exec, fn *ssa.Function, args []Value, site string) Value {
+		if a, ok := args[0].(string); ok {
+			return strings.TrimSpace(a)
+		}
+		panic(pathAbort{"unsupported: symbolic TrimSpace"})
+	})
 	reg("strings.ToUpper", func(ex *Exec, fn *ssa.Function, args []Value, site string) Value {
 		if a, ok := args[0].(string); ok {
 			return strings.ToUpper(a)
